@@ -46,7 +46,10 @@ CHECKS = {
          "seeded search over the order of the operator's restore request(s) and the runtime's restore poll, hook outcome (completes, restore/error, init/error, overruns the hook timeout by 1 ms .. 2 s, exits, never polls), reported error types, and interleaved credentials requests with right, wrong and missing tokens; decides result, step and exact fake-clock instant of every restore, every credentials response and the absence of key variables from the runtime's environment; sampled"),
 }
 
-RACE = {"C02", "C03", "C04", "C06", "C09", "C10", "C11", "C12", "C13", "C17", "C18"}
+RACE = {"C02", "C03", "C04", "C05", "C06", "C07", "C09", "C10", "C11", "C12", "C13", "C17", "C18"}
+
+RACE_NARROW = {"C05": "lambda/rapid/shutdown.go, lambda/rapid/exit.go and lambda/core/flow.go",
+               "C07": "lambda/rapid/shutdown.go, lambda/core/states.go, lambda/rapi/handler/invocationresponse.go and lambda/rapi/rendering/render_error.go"}
 
 NA = [
  ("C16", "pure function of configuration (environment layering); no schedule, clock, fault or interleaving for a simulator to decide (DESIGN.md 4)"),
@@ -60,6 +63,8 @@ def main():
         if pid in RACE:
             tech += "; followed by a race pass: the same seeded scenarios on a worker built with the race detector, the simulator's own synchronisation hidden from it and the edges of the simulated locks declared (DESIGN 11.12)"
             text += " After the main pass a race pass (1 500 runs quick, 40 000 thorough) runs the same generators under the race detector; two unsynchronised accesses of emulator code that both lie in the files this property is anchored in are a violation (rule data-race)."
+            if pid in RACE_NARROW:
+                text += " For this property the race pass (3 000 runs quick) is narrowed to " + RACE_NARROW[pid] + " (DESIGN 11.12)."
         checks.append({
             "property_id": pid,
             "quick_cmd": f"/verif/bin/verif check {pid} --tier quick",
